@@ -132,6 +132,7 @@ fn build_compare_op(
     let trait_ = kind.to_path();
 
     let mut wcb = WhereClauseBuilder::new(&generics);
+    wcb.expand_self_to(&this_ty);
     let use_bounds = e.push_bounds_to_with(hattrs, kind, &mut wcb);
     let body = match op {
         CompareOp::PartialEq => build_partial_eq_body(source, use_bounds, &mut wcb)?,
